@@ -373,7 +373,8 @@ def configs(tier):
             T.append(("mux", ((a, b), 3, 2, 0, so)))
     for sc in itertools.product([(), ("c",), (0,), ("c", 1), (2, "d")], repeat=2):
         T.append(("bridge", sc))
-    name_sets = [(("mux",),), (("a", "b"), ("a__b",)), (("a__b",), ("a", "b")), (("a", "b"), ("a__b",), ("a__b__2",), ("mux",)),
+    name_sets = [(("a", "x", "r"), ("b", "x", "r")), (("rx", 0, "ctrl"), ("tx", 0, "ctrl"), ("rx", 1, "ctrl")),
+                 (("u0", "irq", "en"), ("u1", "irq", "en"), ("u0", "irq", "st"), ("u1", "dma", "en")), (("mux",),), (("a", "b"), ("a__b",)), (("a__b",), ("a", "b")), (("a", "b"), ("a__b",), ("a__b__2",), ("mux",)),
                  ((0, "x"), ("0__x",)), (("a", 1, "r"), ("a__1", "r"), ("a", "1__r")), (("bridge",), ("bus",), ("element",)),
                  (("a",), ("b",)), (("x", "mux"), ("mux", "x"))]
     for ns in name_sets:
@@ -381,9 +382,11 @@ def configs(tier):
         T.append(("register_paths", tuple(tuple(str(s) for s in path) for path in ns)))
     for k in range(0, 6):
         for dw in (1, 2, 3, 8, 0):
-            for al in (0, 1, 2, 3) if not quick else (0, 2):
+            for al in (0, 1, 2, 3) if not quick else (0, 1, 2):
                 for trg in ("level", "rise", "fall"):
                     T.append(("eventmonitor", (k, dw, al, trg)))
+    for k, dw, al in ((17, 8, 1), (20, 8, 1), (24, 8, 2), (33, 8, 1), (65, 32, 1), (9, 2, 1), (12, 3, 2)):
+        T.append(("eventmonitor", (k, dw, al, "level")))
     for k in range(4):
         for trg in ("level", "rise", "bad"):
             T.append(("monitor", (k, trg)))
